@@ -32,7 +32,7 @@ from lv import core, model, gen, drive, recgen
 from lv.props import common
 
 ID = 'C19'
-BUDGET = {'quick': 400, 'thorough': 12000}        # base programs; <= 6 corruptions each
+BUDGET = {'quick': 560, 'thorough': 12000}        # base programs; <= 6 corruptions each
 WALL = {'quick': 3000, 'thorough': 14400}      # backstop only (shared machine)
 RULE = ('valid base programs from five profiles (core and aggregation profile of the typed '
         'generator lv/gen.py; `inject`: chains of single-rule predicates that the compiler '
@@ -97,7 +97,7 @@ FUN = dict(p_colnames=0.0, p_two_rules=0.4, p_named=0.3, n_idb=(2, 2), n_inj=(0,
 INJ = dict(p_colnames=0.0, p_two_rules=0.12, p_named=0.4, n_idb=(2, 3), p_if=0.06, p_or=0.15,
            p_neg=0.2, p_call_idb=0.8, max_rows=4)
 OPS_PER_PROGRAM = 6
-PROFILES = ('core', 'agg', 'agg', 'rec', 'functor', 'inject')
+PROFILES = ('core', 'agg', 'agg', 'rec', 'rec', 'functor', 'inject', 'inject')
 P_CAPTURE = 0.65          # share of caller-capturable sites given a caller's variable name
 P_OBSERVER = 0.5          # recursive programs extended with a predicate reading a member
 
